@@ -1182,18 +1182,24 @@ func laws(sel int, in, got []int64, law func(lsel int, lin []int64, sig string))
 		law(104, cat([]int64{0}, its, encLayout(x.qt, eTable), o.queue), "")
 		law(106, cat(its, encLayout(x.vt, eTable), encLayout(x.qt, eTable), o.vq), "")
 		if emitMixedIndexLaw {
-			// the signature only where the MECHANISM of the finding is present: pod
-			// names with and without a numeric index in one task set
-			withIdx, without := false, false
-			for _, it := range x.its {
-				withIdx = withIdx || it.pidx != nil
-				without = without || it.pidx == nil
+			// 114 (asymmetry, totality) is never signed.  124 (negative transitivity)
+			// carries the CompareTask signature only if EVERY violating triple of the
+			// implementation's own TaskOrderFn matrix contains an indexed / un-indexed pair
+			law(114, cat(its, encLayout(x.tt, eTable), o.task), "")
+			n := len(x.its)
+			mixed := map[[2]int]bool{}
+			for i, a := range x.its {
+				for j, b := range x.its {
+					if (a.pidx == nil) != (b.pidx == nil) {
+						mixed[[2]int{i, j}] = true
+					}
+				}
 			}
 			sig := ""
-			if withIdx && without {
+			if len(mixed) > 0 && explainedBy(negtransViolations(n, o.task), mixed) {
 				sig = sigMixedIndex
 			}
-			law(114, cat(its, encLayout(x.tt, eTable), o.task), sig)
+			law(124, cat(its, encLayout(x.tt, eTable), o.task), sig)
 		}
 	case 5:
 		law(105, cat(in, got[1:]), "")
